@@ -207,11 +207,11 @@ PROPS["C07"] = dict(
 
 PROPS["C19"] = dict(
     title="Suspend really suspends; resume picks up and completes",
-    module="Cfdp.Props.C19c",
+    module="Cfdp.Props.C19r",
     namespace="Cfdp.Loop",
     theorems=["C19_send_quiet", "C19_send_no_timer_fault", "C19_send_permit_ignored", "C19_send_resume",
               "C19_recv_quiet", "C19_recv_no_timer_fault", "C19_recv_suspend", "C19_recv_resume", "C19_send_run_quiet",
-              "Cfdp.Net.C19_completes_despite_suspensions"],
+              "Cfdp.Net.C19_completes_despite_suspensions", "C19_resume_round"],
     engines=["send", "recv", "daemon"],
     design="§6 C19",
     technique="Lean 4 proofs over the sender/receiver models and the task-loop step (gating of the send/timeout branches) + differential correspondence",
@@ -221,12 +221,15 @@ PROPS["C19"] = dict(
                 "whole stretch of events as long as the state stays Suspended (C19_send_run_quiet); suspend pauses all counters; resume makes the "
                 "transaction Active with the inactivity count at 0 counting from the resume instant and leaves queue, cursor, progress, EOF, segments, "
                 "metadata and staging file untouched (C19_*_resume). The gating is exactly what the pinned tree lacked (findings F17, F22). "
+                "Resume picks the recovery up (Props/C19r.lean): the Resume.request of a receiver suspended in mid-recovery itself rebuilds the request queue from the segment list "
+                "and starts the NAK counter afresh (resume_rebuilds), so a resume followed by a round in which nothing is lost - the NAKs reach the sender, the answers the receiver, "
+                "any order, any duplicates - ends Finished / NoError / Complete / Retained without any timer expiry in between (C19_resume_round, on top of C02_full_round_after_wake). "
                 "Tie to the code: send and recv engines with suspend/resume injected at random points and arbitrary suspension lengths; oracles quiet / fault_while_suspended."),
-    level_note=RECV_SEND_NOTE + " The completion-after-resume sentence of the property is C02's liveness and is not a theorem here.",
+    level_note=RECV_SEND_NOTE + " The completion-after-resume sentence of the property is a theorem for a round without losses after the resume (C19_resume_round); under losses it is C02's liveness.",
     rule=("daemon engine (two real daemons): in every third multi-transaction scenario one acknowledged six-segment transfer is suspended through its daemon (UserPrimitive::Suspend) right after its Put and resumed 1.5 s later - oracle daemon_suspended_silent (nothing of that transaction is handed to the link in between) and completion after the Resume (C11 others_unaffected). send + recv engines (see C07/C04): about one history in nine contains suspend, time passing (0 to 30 s), timeouts, send attempts, resume; "
           "fault handlers that suspend (8:s, 1:s, 7:s) make suspension by fault frequent. Non-trivial = a PDU was emitted or an indication raised."),
     assumptions=["the loop consults has_pdu_to_send()/until_timeout() before every iteration (lib.rs select! guards), as modelled in Model/Loop.lean"],
-    unproved=["that the retransmissions which make a resumed transfer complete happen within the limits is the liveness half of C02 (oracle); that suspensions do not change the outcome once everything is delivered is C19_completes_despite_suspensions"],
+    unproved=["completion after a resume under further losses is the liveness part of C02 (oracle); without further losses it is C19_resume_round, and that suspensions do not change the outcome once everything is delivered is C19_completes_despite_suspensions"],
 )
 
 PROPS["C20"] = dict(
@@ -546,10 +549,11 @@ DAEMON_NOTE = ("Trusted: Lean kernel; the per-transaction models and the routing
 
 PROPS["C11"] = dict(
     title="Concurrent transactions are isolated; stray PDUs cannot disturb the daemon",
-    module="Cfdp.Props.C11s",
+    module="Cfdp.Props.C11f",
     namespace="Cfdp.Daemon",
     theorems=["C11_route_isolated", "C11_stray_discarded", "C11_spawn", "C11_ids_distinct",
-              "Cfdp.System.C11_isolated_step", "Cfdp.System.C11_isolated_run", "Cfdp.System.C11_table_step", "Cfdp.System.C11_commute"],
+              "Cfdp.System.C11_isolated_step", "Cfdp.System.C11_isolated_run", "Cfdp.System.C11_table_step", "Cfdp.System.C11_commute",
+              "Cfdp.Loop.C11_writes_only_own_name", "Cfdp.Loop.C11_shared_filestore"],
     engines=["daemon"],
     design="§6 C11",
     technique="Lean 4 proofs over a model of the daemon's routing table + differential correspondence of the routing decisions + implementation-level oracles on two real daemons under a virtual clock",
@@ -568,14 +572,18 @@ PROPS["C11"] = dict(
                 "destination and report their own outcome (own_file), ids distinct (distinct_ids), daemons still running after stray / replayed PDUs (daemon_alive), a receive "
                 "transaction started by a stray ends by its own limits (daemon_bounded); with nothing lost on the link every transaction reports exactly one, successful outcome "
                 "whatever strays arrive, including PDUs of foreign entities whose sequence number collides with a live transaction (others_unaffected). Correspondence: the key "
-                "forward_pdu computed for every PDU it routed (hook trace, cfg cfdp_verif) equals the model's key, and the set of receive transactions spawned equals the model's."),
+                "forward_pdu computed for every PDU it routed (hook trace, cfg cfdp_verif) equals the model's key, and the set of receive transactions spawned equals the model's. "
+                "The shared filestore (Props/C11f.lean): over every event of a receive transaction's task loop - any PDU, transmission, timer expiry, user request - a path that is not the "
+                "transaction's destination name (its Metadata carrying no filestore requests) reads the same before and after the iteration (C11_writes_only_own_name: the filestore frame "
+                "of finalize_file / finalize_receive / check_finished and of every PDU handler), hence whatever a transaction does on a filestore it shares with others leaves their "
+                "destination names alone, in any interleaving (C11_shared_filestore)."),
     level_note=DAEMON_NOTE,
     rule=("daemon engine: 15 (quick) / 150 (thorough) scenarios with 2-6 overlapping transactions (both directions, acknowledged / unacknowledged, files of 0 .. 6 segments with "
           "distinct contents; EOF / Finished / ACK PDUs delivered up to 700 ms late so that transactions overlap the strays) plus 2-6 injected strays each: a Finished PDU for a "
           "sender that does not exist, a PDU naming entity 77 (no transport), a file-data or EOF PDU with a fresh id that legitimately starts a receive transaction nobody "
           "continues, and responses / data / cancelling EOFs of foreign entities 3 and 77 carrying the sequence number of a live transaction. Non-trivial = a routing line with at least one delivered PDU."),
     assumptions=["transaction tasks share nothing but the filestore and the channels to the daemon (Rust ownership: each task owns its transaction value); in Model/System.lean each task has its own filestore value, and the composition (the daemon hands a routed PDU to that task and does nothing else) is tied to the code by the routing-key trace and the end-to-end oracles only"],
-    unproved=["that the real tasks do not interfere through the shared filestore or channel back-pressure is an oracle (own_file, daemon_bounded), not a theorem"],
+    unproved=["interference through channel back-pressure and task scheduling is an oracle (others_unaffected, others_not_delayed, daemon_bounded), not a theorem; through the shared filestore it is excluded by C11_writes_only_own_name for transactions without filestore requests and with distinct destination names (two transactions given the same destination name, or filestore requests naming another's file, do collide - by design)"],
 )
 
 PROPS["C02"] = dict(
